@@ -175,4 +175,5 @@ func c08Directed(c *Ctx) {
 		}
 		ok("unusable_cache_key", cs)
 	}
+	c04Settle() // pending releases run on goroutines of their own
 }
